@@ -1,5 +1,5 @@
 (* C12, part 2: projections commute with the view algebra of C01. *)
-From BM Require Import Base.Tactics Model.Layout Model.View Model.Spec Model.ProjectC12
+From BM Require Import Base.Tactics Model.Layout Model.View Model.Spec Model.ProjectC12Based Model.ProjectC12
   Proofs.LayoutProofs Proofs.ViewProofs Proofs.ViewProofs2 Proofs.ProjectC12Scale.
 Local Open Scope Z_scope.
 
@@ -61,14 +61,14 @@ Proof.
 Qed.
 
 Lemma is_flattable_scale num den l b b' sz : 0 < num -> 0 < den -> dom_scale num den l = true -> lay_ok l sz ->
-  v_is_flattable (mkview l b) = true -> v_is_flattable (mkview (l_scale num den l) b') = true.
+  v_is_flattable (mkview l b) = true -> v_is_flattable (mkview (l_scale_b num den l) b') = true.
 Proof.
   intros Hn Hd Hdom Hok. unfold v_is_flattable; cbn [lay].
-  destruct l as [|d0 [|d1 l]]; cbn [l_scale map]; try discriminate.
+  destruct l as [|d0 [|d1 l]]; cbn [l_scale_b map]; try discriminate.
   inv Hok. inv H3. rewrite !dom_scale_cons in Hdom. bprop.
   rewrite (dim_ok_size _ _ (dim_ok_scale _ _ _ _ Hn Hd H H1)), (dim_ok_size _ _ H1).
   intros Hf. apply orb_prop in Hf. apply orb_true_iff. destruct Hf as [Hf|Hf]; [left; assumption|right].
-  bprop. unfold d_scale; cbn [d_stride d_nelems]. rewrite Hf. apply Z.eqb_refl.
+  bprop. unfold d_scale_b; cbn [d_stride d_nelems]. rewrite Hf. apply Z.eqb_refl.
 Qed.
 
 Lemma p_addr_exec_op o x idx :
